@@ -53,7 +53,7 @@ Idx(cfg, s) == CHOOSE i \in 1..Len(cfg.stations) : cfg.stations[i] = s
 Tto(cfg, s) == cfg.tto[Idx(cfg, s)]
 Period(cfg, s) == cfg.period[Idx(cfg, s)]
 NApps(cfg, s) == cfg.napps[Idx(cfg, s)]
-FaultMode(cfg) == cfg.mode \in {"fault", "race", "vanish"}
+FaultMode(cfg) == cfg.mode \in {"fault", "race", "vanish", "lasttx"}
 
 RuleInit(cfg) ==
   LET St == Stations(cfg) IN
